@@ -549,58 +549,71 @@ def run_scenario(server, sc):
 
     check(0, 'init')
     aborted = False
+
+    def diverge(k, lab, model, impl):
+        """first difference between model and implementation; the rest of the interleaving is still forced (same
+        labels, same deterministic scheduler) so that the oracle judges a reproducible run"""
+        if not res['disagree']:
+            res['disagree'].append({'step': k, 'label': lab, 'model': model, 'impl': impl})
+
+    def loop_free():
+        return c.bridge._thread.is_alive() and g.position('L') not in ('wantLock', 'haveLock', 'stopCalled', 'eventSet')
+
     for k, lab in enumerate(labels):
-        if res['disagree']:
-            aborted = True
-            break
+        diverged = bool(res['disagree'])
+        tmo = 0.25 if diverged else 2.0
         if lab[0] == 'c' and lab != 'close':
             i = int(lab[1:])
-            pos = g.advance(i, loop)
-            if pos is None:
-                res['disagree'].append({'step': k + 1, 'label': lab, 'model': 'enabled',
-                                        'impl': f'thread T{i} did not reach its next statement within 2 s (blocked at {g.position(i)})'})
-                aborted = True
-                break
+            if g.position(i) == 'end':
+                diverge(k + 1, lab, 'enabled', f'thread T{i} has already finished')
+            else:
+                pos = g.advance(i, loop, tmo)
+                if pos is None:
+                    diverge(k + 1, lab, 'enabled', f'thread T{i} did not reach its next statement (blocked after {g.position(i)})')
         elif lab[0] == 'j':
             i = int(lab[1:])
             j = W.jobs.get(i)
             if j is None or j['released']:
-                res['disagree'].append({'step': k + 1, 'label': lab, 'model': 'enabled', 'impl': 'no coroutine was submitted'})
-                aborted = True
-                break
-            j['released'] = True
-            loop.call_soon_threadsafe(j['ev'].set)
-            loop_sync()
+                diverge(k + 1, lab, 'enabled', 'no coroutine waiting to be run')
+            else:
+                j['released'] = True
+                if loop_free():
+                    loop.call_soon_threadsafe(j['ev'].set)
+                    loop_sync()
+                else:
+                    diverge(k + 1, lab, 'enabled', 'loop thread not available')
         elif lab == 'close':
             pos = g.position('L')
             if pos == 'spawned':
                 # AsyncSession.close may now begin; it runs up to the injected on_close_coro
                 loop.call_soon_threadsafe(W.close_released.set)
-                end = time.time() + 2
+                end = time.time() + tmo
                 while time.time() < end and g.position('L') != 'begun':
                     time.sleep(0.0005)
                 if g.position('L') != 'begun':
-                    res['disagree'].append({'step': k + 1, 'label': lab, 'model': 'begun', 'impl': f'close procedure at {g.position("L")}'})
-                    aborted = True
-                    break
-                loop_sync()
+                    diverge(k + 1, lab, 'begun', f'close procedure at {g.position("L")}')
+                else:
+                    loop_sync()
+            elif pos in (None, 'done'):
+                diverge(k + 1, lab, 'enabled', f'close procedure at {pos}')
             else:
-                np_ = g.advance('L', loop)
+                np_ = g.advance('L', loop, tmo)
                 if np_ is None:
-                    res['disagree'].append({'step': k + 1, 'label': lab, 'model': 'enabled',
-                                            'impl': f'loop thread did not move on from {pos} within 2 s'})
-                    aborted = True
-                    break
-                if np_ == 'done':
+                    diverge(k + 1, lab, 'enabled', f'loop thread did not move on from {pos}')
+                elif np_ == 'done':
                     loop_sync()
         elif lab == 'stop':
+            if not W.stop_called:
+                diverge(k + 1, lab, 'enabled', 'loop.stop was not requested')
             W.stop_released = True
-            c.bridge._thread.join(2)
+            c.bridge._thread.join(tmo)
         elif lab == 'peer':
+            if not peer:
+                continue
             ev = peer.pop(0)
             if ev != 'reply':
                 del peer[:]          # the peer is gone afterwards
-            live = c.bridge._thread.is_alive()
+            live = loop_free()
             before = (qsize(), [job_state(i) for i in range(n)], g.position('L'))
             server.do(ev)
             if live:
@@ -616,7 +629,8 @@ def run_scenario(server, sc):
             else:
                 time.sleep(0.005)
         res['steps_done'] = k + 1
-        check(k + 1, lab)
+        if not res['disagree']:
+            check(k + 1, lab)
 
     # ---- let everything run freely; who is still inside a call after the grace period is hanging
     pre_alive = c.bridge._thread.is_alive()
@@ -657,7 +671,7 @@ def run_scenario(server, sc):
         elif op == 'recv' and j is not None and j['started'] and not j['consumed']:
             kind = 'concurrent-receive'
         elif j is not None and not j['consumed'] and f.get('closed_at_submit') and f.get('last_check') == ('passed', True):
-            kind = 'submit-after-stop'
+            kind = 'submit-after-stop' if op not in ('close', 'logout') else 'close-submit-after-stop'
         else:
             kind = 'hang'
         res['hung'].append({'caller': i, 'op': op, 'kind': kind, 'position': g.position(i), 'job': job_state(i),
@@ -903,7 +917,7 @@ def correspondence(ctx, sc, r, final):
         return
     for d in r.get('disagree', [])[:1]:
         ctx.disagree(f"step {d['step']} ({d['label']}): model {d['model']!r} vs implementation {d['impl']!r}", dict(base, **d))
-    if r.get('disagree') or r.get('aborted'):
+    if r.get('disagree'):
         return
     # callers that were waiting for the peer are woken by the harness' own cleanup (a disconnect, free running): what
     # happens to them then is judged by the oracle only, it is not part of the model run
